@@ -55,11 +55,15 @@ func checkC15(c *Ctx) {
 		sawFailThenOK := false
 		lastFailed := false
 		ncalls := 2 + r.Intn(29)
+		// half of the histories hand in a by-value copy of the last result (h := *pj; Parse(b, &h)):
+		// such a handle keeps the parser's internal state across FAILED calls too, which plain
+		// pointer chaining (pj, err = Parse(b, pj)) never does
+		byValue := h%2 == 1
 		for k := 0; k < ncalls; k++ {
 			doc, nd, kind := mkDoc()
 			cp := r.Bool()
 			setKernel(hwAVX512 && r.Bool())
-			calls = append(calls, fmt.Sprintf("%s(len=%d,copy=%v,nd=%v)", kind, len(doc), cp, nd))
+			calls = append(calls, fmt.Sprintf("%s(len=%d,copy=%v,nd=%v,byvalue-handle=%v)", kind, len(doc), cp, nd, byValue))
 			var got, want ParseOut
 			// one call in three passes no option at all: the documented default
 			// (copy strings) must apply whatever the reused object was used for before
@@ -114,6 +118,10 @@ func checkC15(c *Ctx) {
 					break
 				}
 				reuse = got.PJ
+				if byValue {
+					hv := *got.PJ
+					reuse = &hv
+				}
 				// serializer / destination reuse
 				if r.Chance(1, 2) {
 					m := compModes[r.Intn(4)]
